@@ -512,6 +512,34 @@ def _check_get_functions(repo, rep, mod):
                'predicate): a layer that registered the name exclusively '
                'no longer hides outer layers for other call kinds' %
                sorted(bad), loc=mod.loc(e), construct=model.norm(e))
+        # ... and it is asked about the very name the overloads are looked
+        # up under (after trailing-underscore / convention resolution)
+        excl_key = None
+        if isinstance(e, ast.Compare) and len(e.ops) == 1 and isinstance(
+                e.ops[0], ast.In):
+            excl_key = e.left
+        look_keys = []
+        for x in ast.walk(c.node):
+            if isinstance(x, ast.Call) and isinstance(
+                    x.func, ast.Attribute) and x.func.attr == 'get' and \
+                    '_functions' in model.norm(x.func.value) and x.args:
+                look_keys.append(x.args[0])
+            elif isinstance(x, ast.Subscript) and '_functions' in \
+                    model.norm(x.value) and isinstance(x.ctx, ast.Load):
+                look_keys.append(x.slice)
+        if excl_key is not None and look_keys:
+            k1 = model.norm(norm.subst_locals(c.node, excl_key,
+                                              only_pure=False))
+            ks = {model.norm(norm.subst_locals(c.node, k, only_pure=False))
+                  for k in look_keys}
+            rep.ob('R17d', c.key + '/exclusivity-under-the-same-name',
+                   ks == {k1},
+                   'the overloads are looked up under `%s` but the '
+                   'exclusive flag under `%s`: for a spelling that the '
+                   'layer resolves to another name (trailing underscore, '
+                   'naming convention) an exclusive registration no longer '
+                   'stops the walk' % (sorted(ks)[0], k1),
+                   loc=mod.loc(e), construct=model.norm(e))
 
 
 def check_writes(repo, rep, mod):
